@@ -412,6 +412,55 @@ def judge_with_canaries(chk: "Check", module: str, recs: list[dict], canaries: l
     return res
 
 
+def apalache_inductive(wrapper: str, copies: list[str], init: str = "Init", ind_init: str = "IndInit", inv: str = "IndInv", timeout: float = 900, broken_sub: tuple | None = None) -> dict:
+    """Discharge `inv` as an inductive invariant with Apalache (symbolic, unbounded in the number of steps):
+    base case  Init => inv  (--length=0) and step  IndInit /\\ Next => inv'  (--init=IndInit --length=1).
+    `wrapper` = spec/apalache/<wrapper>.tla (typed wrapper with constants as definitions); `copies` = design modules to copy next
+    to it (the TLC module is removed from their EXTENDS).  `broken_sub` = (old, new) text substitution in the wrapper that selects
+    the deliberately broken design: its inductive step MUST fail (non-vacuity).  Returns a dict for the evidence; raises
+    MachineryError if a proof obligation fails (the design spec does not depend on the code) - or returns {'available': False}
+    if apalache-mc is not installed / times out."""
+    import re as _re
+
+    exe = shutil.which("apalache-mc")
+    if exe is None:
+        return dict(available=False, reason="apalache-mc not on PATH")
+    d = Path(workdir("apa_"))
+    try:
+        for c in copies:
+            txt = (SPEC / c).read_text()
+            txt = _re.sub(r"^(EXTENDS .*?)(, TLC)(\s*)$", r"\1\3", txt, flags=_re.M)
+            (d / c).write_text(txt)
+        wtxt = (SPEC / "apalache" / f"{wrapper}.tla").read_text()
+        (d / f"{wrapper}.tla").write_text(wtxt)
+
+        def run(args, name):
+            t0 = time.time()
+            try:
+                p = subprocess.run([exe, "check", *args, f"--out-dir={d / 'out'}", f"{name}.tla"], cwd=d, capture_output=True, text=True, timeout=timeout)
+            except subprocess.TimeoutExpired:
+                return None, time.time() - t0, "TIMEOUT"
+            return p.returncode, time.time() - t0, (p.stdout + p.stderr)[-1500:]
+
+        out = dict(available=True, wrapper=wrapper, obligations=[])
+        for label, args in (("base", [f"--init={init}", f"--inv={inv}", "--length=0"]), ("step", [f"--init={ind_init}", f"--inv={inv}", "--length=1"])):
+            rc, wall, tail = run(args, wrapper)
+            if rc is None:
+                return dict(available=False, reason=f"apalache timed out on the {label} obligation")
+            if rc != 0:
+                raise MachineryError(f"Apalache: inductive invariant {inv} of {wrapper} failed its {label} obligation\n{tail}")
+            out["obligations"].append(dict(obligation=label, discharged=True, wall_s=round(wall, 1)))
+        if broken_sub:
+            (d / f"{wrapper}_broken.tla").write_text(wtxt.replace(broken_sub[0], broken_sub[1]).replace(f"MODULE {wrapper} ", f"MODULE {wrapper}_broken "))
+            rc, wall, tail = run([f"--init={ind_init}", f"--inv={inv}", "--length=1"], f"{wrapper}_broken")
+            if rc == 0:
+                raise MachineryError(f"Apalache: the deliberately broken design of {wrapper} passes the inductive step (vacuous invariant)")
+            out["broken_design_rejected"] = rc is not None
+        return out
+    finally:
+        shutil.rmtree(d, ignore_errors=True)
+
+
 def workdir(prefix: str) -> str:
     """a fresh scratch directory under /verif/.work (created on demand; callers remove it)"""
     import tempfile
